@@ -4,12 +4,18 @@ package httpp
 
 import (
 	"fmt"
+	"net/http"
+	"net/http/httptest"
 	"net/url"
 	"strings"
 	"testing"
+	"time"
 
+	"github.com/bluenviron/mediamtx/internal/test"
 	"github.com/bluenviron/mediamtx/internal/verifutil"
 )
+
+var verifC05Servers = map[string]*Server{}
 
 // oracle columns: url.Parse called directly (not through MediaMTX code)
 func verifC05Parse(s string) string {
@@ -41,13 +47,45 @@ func verifC05Exec(op string) string {
 	if verifC05Op(origin, allow) != op {
 		return "stale-oracle"
 	}
-	res, ok := isOriginAllowed(origin, allow)
-	switch {
-	case !ok:
-		if res != "" {
-			return "none-with-value"
+	// go through the stable seam: a Server configured with AllowOrigins, its whole handler chain,
+	// one request carrying the Origin header (no network I/O: the chain is invoked directly)
+	key := strings.Join(allow, "\x00") + fmt.Sprint(len(allow))
+	srv, found := verifC05Servers[key]
+	if !found {
+		srv = &Server{
+			Address:      "127.0.0.1:0",
+			AllowOrigins: allow,
+			ReadTimeout:  10 * time.Second,
+			WriteTimeout: 10 * time.Second,
+			Parent:       test.NilLogger,
+			Handler:      http.HandlerFunc(func(w http.ResponseWriter, _ *http.Request) { w.WriteHeader(http.StatusOK) }),
 		}
+		if err := srv.Initialize(); err != nil {
+			return "init-error"
+		}
+		if len(verifC05Servers) > 256 {
+			for k, v := range verifC05Servers {
+				v.Close()
+				delete(verifC05Servers, k)
+			}
+		}
+		verifC05Servers[key] = srv
+	}
+	req := httptest.NewRequest(http.MethodGet, "http://localhost/", nil)
+	if origin != "" {
+		req.Header["Origin"] = []string{origin}
+	}
+	rec := httptest.NewRecorder()
+	srv.inner.Handler.ServeHTTP(rec, req)
+	vals := rec.Header().Values("Access-Control-Allow-Origin")
+	switch {
+	case len(vals) == 0:
 		return "none"
+	case len(vals) > 1:
+		return "multiple-headers"
+	}
+	res := vals[0]
+	switch {
 	case res == "*" && origin != "*":
 		return "star"
 	case res == origin:
